@@ -114,6 +114,8 @@ type c02Func struct {
 	params []c02Param
 	polys  []int // indices of undetermined parameters
 	pair   *c02Param
+	cross  []string // uses relating TWO parameters, written BEFORE the uses that pin their types
+	crossV int
 }
 
 func (f *c02Func) src(erase map[int]bool) string {
@@ -128,6 +130,7 @@ func (f *c02Func) src(erase map[int]bool) string {
 	}
 	sb.WriteString(" =\n")
 	var terms []string
+	terms = append(terms, f.cross...)
 	for _, p := range f.params {
 		if p.kind == "pair" {
 			sb.WriteString("  let (" + p.name + "a, " + p.name + "b) = " + p.name + "\n")
@@ -152,7 +155,7 @@ func (f *c02Func) src(erase map[int]bool) string {
 }
 
 func (f *c02Func) value() int {
-	v := 0
+	v := f.crossV
 	for _, p := range f.params {
 		if p.kind == "pair" {
 			v += 7 + 1 + 2 // a=7, b="zz": (a+1) + strLen b
@@ -184,6 +187,34 @@ func c02GenFunc(r *rand.Rand, name string, tagN *int) *c02Func {
 			f.params = append(f.params, c02Param{name: pn, kind: "pair", fo: "int*string", argFo: "(7, \"zz\")"})
 		default:
 			f.params = append(f.params, c02MakeParam(r, pn, k, tagN))
+		}
+	}
+	// comparisons / connectives between two parameters of one kind: when both annotations are erased,
+	// both operands are still undetermined where the operator is met; the uses that pin them follow
+	for i := range f.params {
+		for j := i + 1; j < len(f.params); j++ {
+			pi, pj := f.params[i], f.params[j]
+			if pi.kind != pj.kind || r.Intn(2) == 0 {
+				continue
+			}
+			type cu struct {
+				op string
+				v  int
+			}
+			var ops []cu
+			switch pi.kind {
+			case "int": // both arguments are 5
+				ops = []cu{{"<", 0}, {"<=", 1}, {">", 0}, {">=", 1}, {"=", 1}, {"<>", 0}}
+			case "str": // both "ab"
+				ops = []cu{{"=", 1}, {"<>", 0}}
+			case "bool": // both true
+				ops = []cu{{"&&", 1}, {"||", 1}, {"=", 1}}
+			default:
+				continue
+			}
+			o := ops[r.Intn(len(ops))]
+			f.cross = append(f.cross, "(if "+pi.name+" "+o.op+" "+pj.name+" then 1 else 0)")
+			f.crossV += o.v
 		}
 	}
 	return f
